@@ -25,6 +25,8 @@ import (
 const (
 	maxArrayLen      = 1024 * 1024
 	maxBulkStringLen = 1024 * 1024 * 512
+	// maxArrayDepth limits the nesting of arrays, the decoder is recursive.
+	maxArrayDepth = 128
 )
 
 var (
@@ -38,6 +40,8 @@ var (
 	ErrBadArrayLen = errors.New("bad array len")
 	// ErrBadArrayLenTooLong too long array len
 	ErrBadArrayLenTooLong = errors.New("bad array len, too long")
+	// ErrBadArrayNestTooDeep for arrays nested too deeply
+	ErrBadArrayNestTooDeep = errors.New("bad array, nested too deeply")
 
 	// ErrBadBulkStringLen for invalid bulk string len
 	ErrBadBulkStringLen = errors.New("bad bulk string len")
@@ -59,8 +63,9 @@ const (
 var CRLF = []byte{CR, LF}
 
 type decoder struct {
-	br  *Reader
-	err error
+	br    *Reader
+	err   error
+	depth int // nesting depth of the array being decoded
 }
 
 func newDecoder(r io.Reader, bufSize int) *decoder {
@@ -231,6 +236,11 @@ func (d *decoder) decodeArray() ([]RespValue, error) {
 	case n == -1:
 		return nil, nil
 	}
+	if d.depth >= maxArrayDepth {
+		return nil, ErrBadArrayNestTooDeep
+	}
+	d.depth++
+	defer func() { d.depth-- }()
 	array := make([]RespValue, n)
 	for i := range array {
 		r, err := d.decode()
